@@ -173,7 +173,7 @@ EnterPrecommit(s, r) ==
         THEN fin([s EXCEPT !.lockedR = r, !.lockedV = s.propBlock], s.propBlock)
         ELSE fin(s, Nil)
      ELSE IF maj = Nil THEN fin(Unlock(s), Nil)
-     ELSE IF s.lockedV = maj THEN fin([s EXCEPT !.lockedR = r], maj)
+     ELSE IF s.lockedV = maj THEN fin(IF W("RelockKeepsRound") THEN s ELSE [s EXCEPT !.lockedR = r], maj)
      ELSE IF s.propBlock = maj THEN
         IF ~Valid(maj) THEN Panic(s, "+2/3 prevoted for an invalid block")
         ELSE fin([s EXCEPT !.lockedR = r, !.lockedV = maj], maj)
@@ -194,7 +194,9 @@ EnterPrevoteWait(s, r) ==
 \* cs.enterPrevote(height, round) + defaultDoPrevote
 EnterPrevote(s, r) ==
   IF Dead(s) \/ s.height # 1 \/ r < s.round \/ (r = s.round /\ StPrevote <= s.step) THEN s ELSE
-  LET val == IF s.lockedV # Nil /\ ~W("PrevoteIgnoresLock") THEN s.lockedV
+  LET val == IF s.lockedV # Nil /\ ~W("PrevoteIgnoresLock")
+                /\ ~(W("PolProposalOverridesLock") /\ s.prop # NoProp /\ s.prop.pol >= s.lockedR /\ ProposalComplete(s))
+             THEN s.lockedV
              ELSE IF s.propBlock = Nil THEN Nil
              ELSE IF ~Valid(s.propBlock) /\ ~W("PrevoteSkipsValidate") THEN Nil
              ELSE s.propBlock
